@@ -2,6 +2,7 @@
 package mon
 
 import (
+	"encoding/json"
 	"fmt"
 	"math/big"
 	"time"
@@ -9,6 +10,7 @@ import (
 	"verifharness/chain"
 	"verifharness/fw"
 	"verifharness/gen"
+	"verifharness/model"
 
 	minttypes "github.com/chain4energy/c4e-chain/x/cfeminter/types"
 	sdk "github.com/cosmos/cosmos-sdk/types"
@@ -66,3 +68,36 @@ func fmtTime(t time.Time) string { return t.UTC().Format(time.RFC3339Nano) }
 var _ = fmt.Sprintf
 var _ = gen.Epoch
 var _ fw.Violation
+
+// parseDecCoinsJSON parses the JSON array a typed event uses for DecCoins.
+func parseDecCoinsJSON(s string) (model.Coins, bool) {
+	var arr []struct {
+		Denom  string `json:"denom"`
+		Amount string `json:"amount"`
+	}
+	if err := json.Unmarshal([]byte(s), &arr); err != nil {
+		return nil, false
+	}
+	out := model.Coins{}
+	for _, e := range arr {
+		r, ok := new(big.Rat).SetString(e.Amount)
+		if !ok {
+			return nil, false
+		}
+		if out[e.Denom] == nil {
+			out[e.Denom] = new(big.Rat)
+		}
+		out[e.Denom].Add(out[e.Denom], r)
+	}
+	return out, true
+}
+
+// parseAccountJSON parses {"id":..,"type":..}.
+func parseAccountJSON(s string) (typ, id string) {
+	var a struct {
+		ID   string `json:"id"`
+		Type string `json:"type"`
+	}
+	json.Unmarshal([]byte(s), &a)
+	return a.Type, a.ID
+}
